@@ -1076,7 +1076,10 @@ def c18_inrun(rec, st):
                 for k in range(npt):
                     if k != it["best"] and merits[k] == mb:
                         st["c18.d_ties_checked"] += 1
-                        if viols[k] < vb * (1.0 - 1e-9) - 1e-12:
+                        vsc = it.get("vscales") or [0.0] * npt
+                        # linear residuals computed in two ways (scipy's and the probe's) round at eps * |A||x|
+                        margin = 1e-9 * (1.0 + vsc[k] + vsc[it["best"]])
+                        if viols[k] < vb * (1.0 - 1e-9) - 1e-12 - margin:
                             out.append(Viol("C18", "d", "points %d and %d tie on the merit value %r but the centre (%d) "
                                             "has violation %r > %r" % (it["best"], k, mb, it["best"], vb, viols[k]),
                                             key="tie_not_to_smaller_violation"))
